@@ -184,6 +184,31 @@ func (ex *Exec) hashDigest(code uint64, data []*Term, size int) []*Term {
 		for i, b := range sum {
 			r[i] = tt.BV(uint64(b), 8)
 		}
+		if ex.hashInjective {
+			// relate the real digest to the uninterpreted ones of this run
+			known := false
+			for _, e := range ex.hashMemo {
+				if e.code != code {
+					continue
+				}
+				if _, conc := ex.concreteBytes(e.data); conc {
+					if len(e.data) == len(data) && ex.bytesEq(e.data, data).IsTrue() {
+						known = true
+					}
+					continue
+				}
+				if len(e.data) == len(data) {
+					same := ex.bytesEq(e.data, data)
+					ex.addPC(tt.Implies(same, ex.bytesEq(e.digest, r)))
+					ex.addPC(tt.Implies(ex.bytesEq(e.digest, r), same))
+				} else {
+					ex.addPC(tt.BNot(ex.bytesEq(e.digest, r)))
+				}
+			}
+			if !known {
+				ex.hashMemo = append(ex.hashMemo, hashEntry{code: code, data: data, digest: r})
+			}
+		}
 		return r
 	}
 	// symbolic data: uninterpreted digest, functionally consistent with earlier calls
@@ -207,9 +232,21 @@ func (ex *Exec) hashDigest(code uint64, data []*Term, size int) []*Term {
 		d[i] = ex.newAux(fmt.Sprintf("H%x#%d[%d]", code, k, i), 8)
 	}
 	for _, e := range ex.hashMemo {
-		if e.code == code && len(e.data) == len(data) {
-			ex.addPC(tt.Implies(ex.bytesEq(e.data, data), ex.bytesEq(e.digest, d)))
+		if e.code != code {
+			continue
 		}
+		if len(e.data) == len(data) {
+			same := ex.bytesEq(e.data, data)
+			ex.addPC(tt.Implies(same, ex.bytesEq(e.digest, d)))
+			if ex.hashInjective {
+				ex.addPC(tt.Implies(ex.bytesEq(e.digest, d), same))
+			}
+		} else if ex.hashInjective {
+			ex.addPC(tt.BNot(ex.bytesEq(e.digest, d)))
+		}
+	}
+	if ex.hashInjective {
+		ex.noteOnce("assumption requested by the harness: the hash function is collision free on the inputs hashed in this run")
 	}
 	ex.hashMemo = append(ex.hashMemo, hashEntry{code: code, data: data, digest: d})
 	ex.noteOnce("non-identity hash of symbolic data is an uninterpreted function (functional consistency only)")
